@@ -168,7 +168,13 @@ def run(ctx):
     an = m["add_to_nested_samples"]
     okan = len([1 for n_, b_ in find_stmt("self.nested_samples_indices = $v", an.node) if match_expr("insert(self.nested_samples_indices, searchsorted(self.nested_samples_indices, indices), indices)", b_["v"], inline=single_assignments(an.node)) is not None]) == 1
     ctx.ob("R-LIN", "C04.3", an, "moving indices to the discarded set is a sorted merge (searchsorted + insert)", okan, "")
-    growers = [f.name for f, n, kind in attr_stores(prog, "nested_samples_indices", [c]) if kind == "assign"]
+    def _empty_set(f_, n_):
+        st_ = next((s_ for s_ in walk_no_nested(f_.node) if isinstance(s_, ast.Assign) and any(t_ is n_ for t_ in s_.targets)), None)
+        v_ = getattr(st_, "value", None)
+        return v_ is not None and ((isinstance(v_, ast.Constant) and v_.value is None) or canon(v_) in ("empty(0)", "zeros(0)", "array([])", "arange(0)"))
+
+    # (the initial insertion may (re)create the empty discarded set next to the full live set)
+    growers = [f.name for f, n, kind in attr_stores(prog, "nested_samples_indices", [c]) if kind == "assign" and not (f.name == "add_initial_samples" and _empty_set(f, n))]
     ctx.ob("R-WRITERS", "C04.3", OS_, "the discarded index set is assigned only by the constructor, add_samples (remap / strict split) and add_to_nested_samples (merge)", set(growers) <= {"__init__", "add_samples", "add_to_nested_samples"}, f"{sorted(set(growers))}")
     rm = m["remove_samples"]
     ra = FA(rm)
@@ -240,6 +246,15 @@ def run(ctx):
     for f_, n_, kind_ in attr_stores(prog, "log_likelihood_threshold", [prog.cls(tables.OS_)]):
         ctx.ob("R-WRITERS", "C04.6", f_, "the store's threshold is written only by its constructor (None) and its setter", f_.name in ("__init__", "update_log_likelihood_threshold"), f"`{src(n_)[:60]}`", node=n_)
     ctx.floor("C04.6", 5)
+
+    # ---- C04.7 an index set is never the None index ------------------------------------------------------------------
+    # `a[None]` is `a[np.newaxis]`: remapping an index set that is still None does not fail, it yields a 2-d array that
+    # holds every old index - every stored sample becomes both live and discarded
+    from ..rules import nonnull as _nn
+
+    for f_, s_, ok_, why_ in _nn.index_uses(prog, initialisers={OS_.qual if hasattr(OS_, 'qual') else str(OS_): ("add_initial_samples",)}):
+        ctx.ob("R-NONNULL", "C04.7", f_, "an attribute used as an array index cannot be None at that use (never None in its class, or excluded by the guards of the use)", ok_, why_, node=s_)
+    ctx.floor("C04.7", 8)
     ctx.assumptions += ["numpy insert / searchsorted / argsort semantics", "the history-level statement (arbitrary interleavings with ties) is a question about array contents and is not decided; only the discipline every interleaving relies on is"]
 
 
@@ -276,6 +291,7 @@ CLAIM = {
 _I = "nessai/samplers/importancesampler.py"
 _S = "nessai/utils/structures.py"
 MUTANTS = [
+    {"id": "discarded-set-starts-as-none", "file": "nessai/samplers/importancesampler.py", "old": "        self.nested_samples_indices = np.empty(0, dtype=int)\n        self.strict_threshold", "new": "        self.nested_samples_indices = None\n        self.strict_threshold", "expect": "used as an array index cannot be None"},
     {"id": "rows-inserted-elsewhere", "file": _I, "old": "        self.log_q = np.insert(self.log_q, indices, log_q, axis=0)", "new": "        self.log_q = np.insert(self.log_q, indices + 1, log_q, axis=0)", "expect": "batch insertion"},
     {"id": "rows-inserted-flat", "file": _I, "old": "        self.log_q = np.insert(self.log_q, indices, log_q, axis=0)", "new": "        self.log_q = np.insert(self.log_q, indices, log_q)", "expect": "batch insertion"},
     {"id": "batch-not-sorted", "file": _I, "old": "        samples, log_q = self.sort_samples(samples, log_q)\n        indices = np.searchsorted", "new": "        indices = np.searchsorted", "expect": "batch insertion"},
